@@ -45,25 +45,25 @@ def substitution_loops(run, F, E, label):
             if not found:
                 raise AnalysisBroken('no loop that applies outstanding requests is reachable from R_::%s' % root_name)
             for fn, st in found:
-                L = loops.classify(st)
-                ok = L.kind == 'counted'
+                B = loops.bounded(fn, st)
+                ok = B is not None
                 detail = None
                 if ok:
-                    ty = L.var.get('ty', '')
+                    ty = B['var'].get('ty', '')
                     conds = {
-                        'starts at 0': L.start == 0,
-                        'steps by +1': L.step == 1,
-                        'bounded by i < K with K == SubstitutionLimit (%d)' % K: (L.bound_op == '<' and L.bound_val == K) or (L.bound_op == '<=' and L.bound_val == K - 1) or (L.bound_op == '!=' and L.bound_val == K),
-                        'counter is a local that only the increment writes': not loops.body_writes_var(L, L.var['id']) and not L.var.get('ref'),
+                        'starts at 0': B['start'] == 0,
+                        'every path that iterates again adds exactly 1 to the counter': B['per_iteration'] == 1,
+                        'bounded by i < K with K == SubstitutionLimit (%d)' % K: (B['bound_op'] == '<' and B['bound_val'] == K) or (B['bound_op'] == '<=' and B['bound_val'] == K - 1) or (B['bound_op'] == '!=' and B['bound_val'] == K),
+                        'counter is a local that only the increment writes': not B['problems'],
                         'counter cannot wrap (K <= max of its type)': K <= (255 if 'char' in ty else 65535),
                     }
                     bad = [k for k, v in conds.items() if not v]
                     if bad:
                         ok = False
-                        detail = {'failed': bad, 'bound': (L.bound_op, L.bound_val), 'K': K}
+                        detail = {'failed': bad, 'bound': (B['bound_op'], B['bound_val']), 'K': K, 'problems': B['problems']}
                 else:
-                    detail = (L.kind, L.start, L.bound_op, L.bound_val, L.step)
-                run.ob('C04.a', 'substitution loop of R_::%s (in %s) [limit %d, %s]: counted loop i=0; i<%d; ++i' % (root_name, fn.short, K, label, K), ok,
+                    detail = 'no local counter compared with a constant in the loop condition'
+                run.ob('C04.a', 'substitution loop of R_::%s (in %s) [limit %d, %s]: a local counter starts at 0, gains exactly 1 per iteration and the loop continues only while it is < %d' % (root_name, fn.short, K, label, K), ok,
                        where=st.get('l') or fn.pat, detail=detail, key='the substitution loop reached from R_::%s is not bounded by the substitution limit' % root_name)
                 # guard rounds per iteration: call sites in the loop body that reach a guard dispatcher
                 c = cfgmod.cfg_of(fn)
@@ -77,7 +77,13 @@ def substitution_loops(run, F, E, label):
                             names.add(r.get('m'))
                     elif n.e.get('fn') is not None and F.fn(n.e['fn']) is not None:
                         names.add(F.fn(n.e['fn']).m)
-                    return bool(names & {'cancelledByGuards', 'cancelledByEntryGuards'})
+                    if names & {'cancelledByGuards', 'cancelledByEntryGuards'}:
+                        return True
+                    # a helper that consults the guards on the loop's behalf
+                    g = F.fn(n.e['fn']) if n.e.get('fn') is not None else None
+                    if g is not None and g.tkey in ('ffsm2::detail::R_', 'ffsm2::detail::RV_', 'ffsm2::detail::RP_'):
+                        return any(h.m in ('cancelledByGuards', 'cancelledByEntryGuards') for h in E.calls_star(g).values())
+                    return False
                 try:
                     gcalls = c.events(pred=is_guard_round)
                 except AnalysisBroken:
